@@ -91,20 +91,32 @@ claim("C13", "Lean 4 theorems (core Lean, no Mathlib) about a class table and th
       "correspondence/oracle on the real code, not by theorems. Python's __init_subclass__/MRO/functools.wraps semantics are modelled by the resolver and "
       "validated against live introspection each run.", "DESIGN.md §5 C13")
 
-claim("C05", "Lean 4 theorems about definitions regenerated from the source (py2lean) + Float correspondence + scipy oracle",
+claim("C05", "Lean 4 theorems about definitions regenerated from the source (py2lean) + Float correspondence + exact-rational / scipy oracle",
       "For every valid parameter (scale>0, rate>0, df>0, minval<maxval) and every point of the support, the one-element log-prob of Normal, LogNormal, Uniform "
       "(closed support), Gumbel, Cauchy, Laplace, Exponential, Logistic and StudentT - the generated standard log-density under the generated "
       "AbstractTransformed._log_prob with the bijection the constructor builds (softplus-reparameterised scale/df) - equals the textbook log-density written "
       "out in the theorem (Normal/Cauchy/Exponential also = log of Mathlib's gaussianPDFReal/cauchyPDFReal/exponentialPDFReal); for any number of independent "
-      "dimensions the lifted log-prob is the sum of the one-element values; the accessors loc/scale/df/rate/minval/maxval return the constructor's values; the "
-      "max-shifted logsumexp/log_softmax the model runs equal log-sum-exp / v - logsumexp v, the VmapMixture log-prob is the log of the weight-normalised sum "
+      "dimensions the lifted log-prob is the sum of the one-element values; the accessors loc/scale/df/rate/minval/maxval return the constructor's values. "
+      "MultivariateNormal (generated Transformed over the hand model of TriangularAffine's constructor, parameter = the Cholesky factor L): for every dimension, "
+      "loc, lower-triangular L with positive diagonal and x, log_prob = -(n/2)log(2pi) - sum log L_ii - 1/2 |L^-1(x-loc)|^2 with the modelled forward substitution, "
+      "= -(n/2)log(2pi) - 1/2 log det S - 1/2 (x-mu)' S^-1 (x-mu) for S = L L' (Mathlib matrices); .loc and .covariance (= L L') reproduce the constructor's values. "
+      "-inf outside the support, never NaN: the same polymorphic definitions instantiated at EF (reals + +-inf + NaN, IEEE special-value rules) give exactly -inf "
+      "for Uniform outside [a,b] and Exponential at x<0 (and at +-inf), NaN privately / -inf publicly for LogNormal at x<=0, the real-number value at every real "
+      "point of every full-support family, and the public log_prob (where(isnan, -inf, .)) is never NaN for any private value. "
+      "The max-shifted logsumexp/log_softmax the model runs equal log-sum-exp / v - logsumexp v, the VmapMixture log-prob is the log of the weight-normalised sum "
       "of component densities for any number of components and positive weights, is invariant to rescaling the weights, and the normalised weights sum to one; "
-      "samplers are bijection(base sample), consistent with sample_and_log_prob, and for Normal push Mathlib's standard Gaussian measure to gaussianReal mu sigma^2. "
+      "VmapMixture._sample selects component[categorical draw] and returns its sample, sample_and_log_prob is consistent. "
+      "Samples follow the density: every _Standard*._sample is one jax.random primitive (trusted law); the generic location-scale push-forward (base density p => "
+      "density p((x-loc)/scale)/scale) is proved and instantiated for Normal, Gumbel, Cauchy (also Mathlib's cauchyMeasure), Laplace, Logistic, StudentT, Uniform "
+      "(indicator density), Exponential (Mathlib's expMeasure 1 -> expMeasure rate), LogNormal (exp push-forward), MultivariateNormal (linear push-forward on R^n) and "
+      "mixtures (categorical law x component laws => mixture density), each with density exp(log_prob) on the support and 0 outside. "
       "Every run compares the model at Float with the real private/public log_prob (special-value classes exactly: -inf outside the support, NaN -> -inf), "
-      "accessors, samplers, constructor guards and VmapMixture over all broadcastable parameter shapes and edge/outside/non-finite points.",
+      "accessors, samplers, constructor guards, VmapMixture (log_prob and sampling on real keys) and MultivariateNormal (model fed with jnp.linalg.cholesky(cov); "
+      "dims 1-4/6, random / diagonal / ill-conditioned / correlated / tiny / huge covariances, far tails) over all broadcastable parameter shapes and edge/outside/non-finite points.",
       _TB + " Prelude/Stats.lean specs of jax.scipy.stats logpdfs and the Lanczos log-Gamma at Float are trusted specs validated by the correspondence; "
-      "Model/Families.lean wiring/lifting/mixture are hand models tied by correspondence. Over the reals statements are on the support (no -inf/NaN in R). "
-      "MultivariateNormal has no Lean model: scipy oracle only. Sampling law proved for Normal only; other families by a KS statistic in the witness search. "
+      "Model/Families.lean wiring/lifting/mixture/MultivariateNormal wiring are hand models tied by correspondence. Over the reals statements are on the support "
+      "(no -inf/NaN in R); the EF statements model special values only (exact finite arithmetic: no rounding, overflow, underflow). jnp.linalg.cholesky and the laws of "
+      "the jax.random primitives (incl. categorical and the independence of jr.split's halves) are trusted primitives. "
       "At Uniform's upper edge the Float comparison uses an input tolerance of max(16 ulps, 4e-11 width) (softplus round trip of the scale is inexact in floating point).",
       "DESIGN.md §5 C05")
 
